@@ -1,0 +1,6 @@
+//go:build !verif
+
+package cache
+
+// verifSaved is a no-op unless built with the `verif` tag.
+func verifSaved(string) {}
